@@ -1030,7 +1030,41 @@ def sc_tailcall_optargs(r):
 """, nopt=nopt, lo=lo, span=r.randint(8, 40))]
 
 
+def sc_c_reentry_callbacks(r):
+    """C code that re-enters the interpreter (PEG cmt / replace callbacks, string/replace-all with a function,
+    sort comparators, macro expansion) keeps values in C locals only and relies on collection staying locked
+    until it is done; a callback that runs an inner fiber to completion (try, protect, a generator) and then
+    allocates must not unlock it (seeded change C01-4: janet_restore reset the lock count)."""
+    inner = r.choice(["(try (error :inner) ([e] nil))", "(protect (error 1))", "(each x (generate [i :range [0 3]] i) x)",
+                      "(resume (fiber/new (fn [] (yield 1)) :y))", "(try (do (churn 1) 7) ([e] nil))"])
+    which = r.sample(["peg", "replace", "sort", "macro", "pegreplace"], r.randint(2, 4))
+    parts = []
+    if "peg" in which:
+        parts.append(r"""
+(defn on-match [a b c] (inner-then-churn) (string a "-" b "-" c))
+(def grammar (peg/compile ~{:word (capture (some (range "az")))
+   :main (* (constant :head) :word " " (cmt (* :word " " :word " " :word) ,on-match) " " :word (constant :tail))}))
+(emit "peg" (peg/match grammar "alpha beta gamma delta omega"))""")
+    if "pegreplace" in which:
+        parts.append(r"""
+(emit "pegrep" (peg/replace-all ~(capture (some (range "09"))) (fn [whole cap] (inner-then-churn) (string "<" cap ">")) "a12b345c6"))""")
+    if "replace" in which:
+        parts.append(r"""
+(emit "replace" (string/replace-all "ab" (fn [s] (inner-then-churn) (string/ascii-upper s)) "xxabyyabzzab"))""")
+    if "sort" in which:
+        parts.append(r"""
+(emit "sort" (sort (seq [i :range [0 $n]] (mkstr (% (* i 7) 11))) (fn [a b] (inner-then-churn) (< a b))))""")
+    if "macro" in which:
+        parts.append(r"""
+(eval ~(defmacro build-sum-$u [& xs] (def acc @[]) (each x xs (,inner-then-churn) (array/push acc (tuple '* 2 x))) (tuple '+ ;acc)))
+(emit "macro" (eval '(build-sum-$u 1 2 3 4 5)))""")
+    return [T(r"""
+(defn inner-then-churn [] $inner (churn $k) nil)
+""" + "".join(parts), inner=inner, k=r.randint(1, 6), n=r.randint(3, 9), u=r.randrange(1 << 30))]
+
+
 SCENARIOS = {
+    "c_reentry_callbacks": sc_c_reentry_callbacks,
     "operator_methods": sc_operator_methods,
     "tailcall_optargs": sc_tailcall_optargs,
     "dup_stream_collected": sc_dup_stream_collected,
